@@ -294,6 +294,63 @@ def translated(mod, out, tag):
     return c["stats"], old is not None and old != c["txt"]
 
 
+# --------------------------------------------------------------------------- C++ side
+
+def build_cxx(pool):
+    """libvita (working tree) + the two harnesses.  Same flags, same cache discipline as C.build_harness (content
+    hash of vita's tree, the harness source, harness/common, the flags), but the two harness translation units are
+    COMPILED while the library builds and only linked afterwards: `evolution<T,ES>` & co. are templates, an edit of
+    vita costs a full recompilation of c06_run.cc (~40 s .. 2 min) that need not wait for the library (~12 s .. 2 min)."""
+    import hashlib
+    out = os.path.join(C.BUILD, "asan")
+    os.makedirs(out, exist_ok=True)
+    base = C.cxx_flags("asan")
+    flags = base + ["-I" + os.path.join(C.ROOT, "harness")]
+    tree = C.repo_tree_hash(" ".join(base))           # = the stamp build_vita writes
+    cdir = os.path.join(C.ROOT, "harness", "common")
+    common = sorted(os.path.join(cdir, f) for f in os.listdir(cdir)) if os.path.isdir(cdir) else []
+
+    def key(name):
+        h = hashlib.sha256()
+        h.update(tree.encode())
+        for f in [os.path.join(C.ROOT, "harness", name + ".cc")] + common:
+            h.update(open(f, "rb").read())
+        h.update(" ".join(flags).encode())
+        return "c06-split-build " + h.hexdigest()
+
+    def fresh(path, k):
+        return os.path.exists(path) and os.path.exists(path + ".stamp") and open(path + ".stamp").read() == k
+
+    def compile_tu(name):
+        exe, obj, k = os.path.join(out, name), os.path.join(out, name + ".o"), key(name)
+        if fresh(exe, k) or fresh(obj, k):
+            return
+        t0 = time.time()
+        rc, so, se = C.sh(["g++"] + flags + ["-c", os.path.join(C.ROOT, "harness", name + ".cc"), "-o", obj])
+        if rc != 0:
+            raise RuntimeError(f"harness {name} does not compile:\n{se[-6000:]}")
+        with open(obj + ".stamp", "w") as f:
+            f.write(k)
+        C.log(f"[build] harness {name} (asan) compiled in {time.time() - t0:.1f}s")
+
+    names = [HARNESS_RUN, HARNESS_TUNE]
+    tus = [pool.submit(compile_tu, n) for n in names]
+    lib = C.build_vita("asan")                        # raises RuntimeError when vita does not compile
+    for t in tus:
+        t.result()
+    exes = []
+    for n in names:
+        exe, obj, k = os.path.join(out, n), os.path.join(out, n + ".o"), key(n)
+        if not fresh(exe, k):
+            rc, so, se = C.sh(["g++"] + flags + [obj, "-o", exe, lib])
+            if rc != 0:
+                raise RuntimeError(f"harness {n} does not link:\n{se[-6000:]}")
+            with open(exe + ".stamp", "w") as f:
+                f.write(k)
+        exes.append(exe)
+    return exes
+
+
 # --------------------------------------------------------------------------- running
 
 def run_shard(exe, cases, tag):
@@ -349,11 +406,7 @@ def run(chk, replay=None):
     # translators or on Lean: it is built in the background while they run (all three are cached by content hash;
     # after an edit of vita this overlaps ~1 min of clang / Lean with the g++ build)
     bg = cf.ThreadPoolExecutor(3)
-
-    def build_cxx():
-        C.build_vita("asan")
-        return list(bg.map(lambda n: C.build_harness(n, "asan"), [HARNESS_RUN, HARNESS_TUNE]))
-    cxx = bg.submit(build_cxx)
+    cxx = bg.submit(build_cxx, bg)
     # which parameters do is_valid / tune_parameters touch in the current sources? (clang AST)
     # what do evolution::run, summary::clear, the strategy classes and the tune_parameters say in the
     # current sources?   (the two translators run side by side)
